@@ -86,6 +86,8 @@ type SessSpec struct {
 	Rollbacks    map[int]uint64 `json:"rollbacks,omitempty"`     // vb -> R: the first stream request of vb is answered ROLLBACK(R)
 	RollbackAt   map[int]int    `json:"rollback_at,omitempty"`   // vb -> which request (1-based) gets the ROLLBACK answer (default 1)
 	RollbackAlso map[int]int    `json:"rollback_also,omitempty"` // vb -> a second request index that is answered ROLLBACK(R) as well
+	// StaticMember: static membership (member, total) instead of 1/1
+	StaticMember [2]int `json:"static_member,omitempty"`
 	// FailoverOnLogFetch: vb -> n: right after the node answered the failover-log request that follows the vBucket's ROLLBACK
 	// answer, the vBucket gets a new branch (uuid 0xfa0000+n, starting at R): the stream opened next is on that branch
 	FailoverOnLogFetch map[int]int         `json:"failover_on_log_fetch,omitempty"`
@@ -505,6 +507,9 @@ func RunSession(spec *SessSpec) *Trace {
 	cfg := env.BaseConfig()
 	if spec.GroupName != "" {
 		cfg.Dcp.Group.Name = spec.GroupName
+	}
+	if spec.StaticMember[1] != 0 {
+		cfg.Dcp.Group.Membership.MemberNumber, cfg.Dcp.Group.Membership.TotalMembers = spec.StaticMember[0], spec.StaticMember[1]
 	}
 	if spec.Auto {
 		cfg.Checkpoint.Type = "auto"
